@@ -30,8 +30,7 @@ def log_call(func):
     @functools.wraps(func)
     def inner_func(*args, **kwargs):
         try:
-            caller_frame_record = inspect.stack()[1]
-            frame = caller_frame_record[0]
+            frame = inspect.currentframe().f_back
             info = inspect.getframeinfo(frame)
             logger.debug(f"{info.filename}:{info.function}:{info.lineno}:{func.__name__}({args=},{kwargs=})")
             return func(*args, **kwargs)
